@@ -686,18 +686,24 @@ func genDeepTree(g *vlib.G) {
 			for a := 0; a < len(extras); a++ {
 				for b := a; b < len(extras); b++ {
 					k++
-					// quick: a fixed 1/64 (n<=8) or 1/512 (n=9) of the (tree, arc pair)
-					// combinations; thorough: all up to 8 nodes, 1/8 for 9, 1/64 for 10.
+					// a fixed fraction of the (tree, arc pair) combinations - quick: 1/64
+					// (n<=7), 1/256 (n=8), 1/1024 (n=9); thorough: all (n<=7), 1/8, 1/64, 1/512 (n=10).
 					stride := 1
 					switch {
-					case !th && n <= 8:
+					case !th && n <= 7:
 						stride = 64
+					case !th && n == 8:
+						stride = 256
 					case !th:
-						stride = 512
-					case n == 9:
+						stride = 1024
+					case n <= 7:
+						stride = 1
+					case n == 8:
 						stride = 8
-					case n == 10:
+					case n == 9:
 						stride = 64
+					case n == 10:
+						stride = 512
 					}
 					if (k+ti)%stride != 0 {
 						continue
@@ -716,48 +722,68 @@ func genDeepTree(g *vlib.G) {
 	}
 }
 
-// genDeepLadder: two parallel paths with rungs in either direction and
-// closing back arcs.
+// genDeepLadder: two or three parallel paths (rails) with rungs in either
+// direction between neighbouring rails - straight (same level) or skewed (to
+// the next level) - and closing back arcs. Long rails give deep DFS trees and
+// the rungs give every node of one rail a semidominator on the other.
 func genDeepLadder(g *vlib.G) {
-	th := g.Thorough()
-	for k := 3; k <= 7; k++ {
-		n := 2 * k
-		for rungs := 0; rungs < 1<<uint(2*k); rungs++ {
-			if g.Stopped() {
-				return
-			}
-			if rungs&0x1555 == 0 {
-				continue // no rung from the a-path to the b-path: the b-path is unreachable
-			}
-			// quick: all rung patterns up to k=4, a fixed 1/4, 1/16, 1/64 for k=5,6,7.
-			if stride := 1 << uint(2*k-8); !th && k >= 5 && (rungs^rungs>>5)%stride != 1 {
+	for _, rails := range []int{2, 3} {
+		for k := 3; k <= 7; k++ {
+			n := rails * k
+			if n > 14 {
 				continue
 			}
-			if th && k == 7 && rungs%4 != 1 {
-				continue
-			}
-			for closing := 0; closing < 4; closing++ {
-				base := newLgraph(n)
-				for i := 0; i < k; i++ {
-					a, b := 2*i, 2*i+1
-					if i+1 < k {
-						base.add(a, a+2)
-						base.add(b, b+2)
+			bitsN := 2 * k * (rails - 1)
+			for skew := 0; skew < 2; skew++ {
+				for rungs := 0; rungs < 1<<uint(bitsN); rungs++ {
+					if g.Stopped() {
+						return
 					}
-					if rungs>>uint(2*i)&1 != 0 {
-						base.add(a, b)
+					// sampling of the rung patterns: all up to 9 (quick) / 12 (thorough)
+					// pattern bits; beyond, a fixed 1/2^(bits-limit), spread by a xor fold.
+					if lim := vlib.Pick(g, 9, 12); bitsN > lim {
+						if (rungs^rungs>>5^rungs>>9)&(1<<uint(bitsN-lim)-1) != 1 {
+							continue
+						}
 					}
-					if rungs>>uint(2*i+1)&1 != 0 {
-						base.add(b, a)
+					for closing := 0; closing < 4; closing++ {
+						base := newLgraph(n)
+						node := func(rail, level int) int { return level*rails + rail }
+						for lv := 0; lv < k; lv++ {
+							for r := 0; r < rails; r++ {
+								if lv+1 < k {
+									base.add(node(r, lv), node(r, lv+1))
+								}
+							}
+							for r := 0; r+1 < rails; r++ {
+								bit := uint(2 * (lv*(rails-1) + r))
+								to := lv
+								if skew == 1 {
+									to = lv + 1
+								}
+								if to >= k {
+									continue
+								}
+								if rungs>>bit&1 != 0 {
+									base.add(node(r, lv), node(r+1, to))
+								}
+								if rungs>>(bit+1)&1 != 0 {
+									base.add(node(r+1, lv), node(r, to))
+								}
+							}
+						}
+						if closing&1 != 0 {
+							base.add(n-1, 0)
+						}
+						if closing&2 != 0 {
+							base.add(n-rails, 1)
+						}
+						if base.reach(0, -1) != uint16(1)<<uint(n)-1 {
+							continue // some rail is unreachable from the root
+						}
+						deepCase(g, "deep-ladder", fmt.Sprintf("rails=%d k=%d skew=%d rungs=%#x close=%d", rails, k, skew, rungs, closing), base, 16)
 					}
 				}
-				if closing&1 != 0 {
-					base.add(n-1, 0)
-				}
-				if closing&2 != 0 {
-					base.add(n-2, 1)
-				}
-				deepCase(g, "deep-ladder", fmt.Sprintf("k=%d rungs=%#x close=%d", k, rungs, closing), base, 16)
 			}
 		}
 	}
@@ -934,7 +960,18 @@ func genDeepProg(g *vlib.G) {
 			}
 			base := &lgraph{n: len(c.succ), succ: c.succ}
 			name := p.String()
-			if !th && n >= 8 && pi%vlib.Pick(g, 4, 1) != 0 {
+			// programs: all in thorough up to 9 nodes (1/4 of the 10-node ones); in
+			// quick all up to 7 nodes, 1/8 of the 8-node and 1/64 of the 9-node ones.
+			pstride := 1
+			switch {
+			case th && n == 10:
+				pstride = 4
+			case !th && n == 8:
+				pstride = 8
+			case !th && n == 9:
+				pstride = 64
+			}
+			if pi%pstride != 0 {
 				continue
 			}
 			deepCase(g, "deep-prog", fmt.Sprintf("n=%d %s", n, name), base, 64)
@@ -946,10 +983,15 @@ func genDeepProg(g *vlib.G) {
 						continue
 					}
 					k++
-					if !th && (k+pi)%16 != 0 {
-						continue
+					// gotos: quick 1/16 of the (program, goto) pairs, thorough 1/2 (n<=9) or 1/8.
+					gstride := 16
+					if th {
+						gstride = 2
+						if n >= 10 {
+							gstride = 8
+						}
 					}
-					if th && n >= 10 && (k+pi)%4 != 0 {
+					if (k+pi)%gstride != 0 {
 						continue
 					}
 					gg := base.clone()
@@ -1020,9 +1062,9 @@ func genDeepClassic(g *vlib.G) {
 // genDeepLCG: sparse pseudo-random flow graphs on 9..14 nodes with a random
 // (LCG-shuffled) successor order.
 func genDeepLCG(g *vlib.G) {
-	seeds := vlib.Pick(g, 150, 4000)
+	seeds := vlib.Pick(g, 100, 3000)
 	for n := 9; n <= 14; n++ {
-		for _, extra := range []int{2, 4, n / 2, n} {
+		for _, extra := range []int{2, 4, n/2 + 3, n + 1} {
 			for seed := 0; seed < seeds; seed++ {
 				if g.Stopped() {
 					return
